@@ -76,7 +76,7 @@ def check(ctx):
     oc = [s for s in rn.stmts if isinstance(s, ast.Assign) and dotted(s.targets[0]) == "outer_sustain_counts"]
     ctx.require(len(oc) == 1, "%s: outer_sustain_counts not found" % nest.fq)
     got = str(rn.at(oc[0], oc[0].value))
-    want = "[-inner_block.common_preamble_size()*sc + inner_block.trials_per_sample()*sc for sc in outer_block.crossing_sustain_counts]"
+    want = "[-_b0*inner_block.common_preamble_size() + _b0*inner_block.trials_per_sample() for _b0 in outer_block.crossing_sustain_counts]"
     ctx.check(got == want, R, nest, "outer sustain %s" % got,
               "outer sustain count = (inner trials - inner common preamble) x outer count",
               "outer sustain counts are `%s`" % got, oc[0])
